@@ -356,7 +356,10 @@ class PDFStandardSecurityHandler:
         self.init()
 
     def init(self) -> None:
-        self.init_params()
+        try:
+            self.init_params()
+        except KeyError as e:
+            raise PDFEncryptionError(f"Missing encryption parameter: {e}")
         if self.r not in self.supported_revisions:
             error_msg = "Unsupported revision: param=%r" % self.param
             raise PDFEncryptionError(error_msg)
